@@ -46,7 +46,8 @@ class BuiltinMixin(object):
     names = []
     for x in (c.items if isinstance(c, VTuple) else [c]):
       if isinstance(x, VGlobal):
-        names.append(x.path.rsplit('.', 1)[-1])
+        mod, _, last = x.path.rpartition('.')
+        names.append(self.world.class_for(mod, last))     # sidecar name of a class declared with pyname
       elif isinstance(x, VBuiltin):
         names.append(x.name)
       else:
@@ -100,7 +101,32 @@ class BuiltinMixin(object):
   def bi_dict(self, args, kw, st):
     if not args and not kw:
       return ops.new_dict(st, [])
+    if len(args) == 1 and not kw and isinstance(args[0], VBound) and args[0].name == 'zip()' \
+        and len(args[0].recv.items) == 2:
+      return self.dict_of_zip(args[0].recv.items[0], args[0].recv.items[1], st)
     raise Unsupported('dict(...) with arguments')
+
+  def dict_of_zip(self, ks, vs, st):
+    """dict(zip(ks, vs)): keys ks[0..n), n = min(len ks, len vs); a repeated key keeps its LAST value.
+    Characterised by a witness function w(k) = last index of k."""
+    lk, ik = self.seq_view(ks, st)
+    lv, iv = self.seq_view(vs, st)
+    n = z3.If(lk <= lv, lk, lv)
+    r = ops.alloc_obj(st, Ty('dict', (elem_type(ks) if isinstance(ks, VRef) else ANY, elem_type(vs) if isinstance(vs, VRef) else ANY)), 'dict')
+    P = ufn(fresh_name('zipdom'), U, B)
+    V = ufn(fresh_name('zipval'), U, U)
+    wit = ufn(fresh_name('ziplast'), U, I)
+    i = z3.Const(fresh_name('zi'), I)
+    j = z3.Const(fresh_name('zj'), I)
+    k = z3.Const(fresh_name('zk'), U)
+    st.assume(z3.ForAll([i], z3.Implies(z3.And(i >= 0, i < n), P(ik(i))), patterns=[ik(i)] if not z3.is_int_value(lk) else None)
+              if not isinstance(ks, VTuple) else z3.And([P(ik(z3.IntVal(q))) for q in range(len(ks.items))] or [z3.BoolVal(True)]))
+    st.assume(z3.ForAll([k], z3.Implies(P(k), z3.And(wit(k) >= 0, wit(k) < n, ik(wit(k)) == k, V(k) == iv(wit(k)))), patterns=[P(k)]))
+    st.assume(z3.ForAll([k, j], z3.Implies(z3.And(P(k), j > wit(k), j < n), ik(j) != k)))
+    olddom, oldval = st.heap.get('dom'), st.heap.get('val')
+    st.heap = st.heap.with_('dom', lambda d, x: obj_ite(d, r.t, lambda: P(x), lambda: olddom(d, x))) \
+                     .with_('val', lambda d, x: obj_ite(d, r.t, lambda: V(x), lambda: oldval(d, x)))
+    return r
 
   def bi_list(self, args, kw, st):
     if not args:
